@@ -37,6 +37,8 @@ RESERVED_PROPERTIES = (
     dir(object)
     + ["__dict__", "__weakref__"]
     + list(keyword.kwlist)
+    # The one other name which may not be assigned to.
+    + ["__debug__"]
     + ["_dict"]
 )
 
